@@ -72,6 +72,10 @@ seria_evmux(int whither, echs_const_evstrm_t strm)
 {
 	const struct evmux_s *this = (const struct evmux_s*)strm;
 
+	if (UNLIKELY(this->s == NULL)) {
+		/* exhausted, next_evmux() has disposed of the streams */
+		return;
+	}
 	for (size_t i = 0UL; i < this->ns; i++) {
 		echs_evstrm_seria(whither, this->s[i]);
 	}
